@@ -23,7 +23,7 @@ IRRATIONAL_TUPLES = [
 ]
 MUST = [["4**n", "8**n"], ["2**n", "4**n"], ["2**n", "(1/2)**n"], ["4**n", "(1/2)**n"], ["(-4)**n", "8**n"], ["(9/4)**n", "(3/2)**n"], ["n", "n**2"],
         ["2**n", "3**n", "6**n"], ["n", "2**n"], ["(-1)**n", "n"], ["2**n + n", "4**n", "n"], ["n*2**n", "2**n", "n"], ["1", "2**n"], ["2**n", "3**n"],
-        ["(-2)**n", "4**n"], ["12**n", "2**n", "3**n"], ["n*(n+1)/2", "n"], ["2**n - 1", "2**n"], ["(2/3)**n", "(3/2)**n"], ["(-1/2)**n", "(1/4)**n"]]
+        ["(-2)**n", "4**n"], ["12**n", "2**n", "3**n"], ["2**n", "3**n", "4**n"], ["2**n", "3**n", "(1/2)**n"], ["3**n", "2**n", "5**n", "9**n"], ["n*(n+1)/2", "n"], ["2**n - 1", "2**n"], ["(2/3)**n", "(3/2)**n"], ["(-1/2)**n", "(1/4)**n"]]
 
 
 def tuples(quick, seed):
